@@ -427,7 +427,7 @@ def _shrink(case, sig):
 
 
 def replay(chk, payload):
-    case = payload.get("case", {})
+    case = payload.get("case", payload)
     case = case.get("case", case)
     if payload.get("verdict") == "no-failing-input-found":
         case = payload["no_longer_checks"][0]["case"]
